@@ -353,3 +353,6 @@ package language
 //@   ensures[C09] result != nil ==> p.curToken.Type == RPAREN
 //@   loop 1:
 //@     invariant len(args) >= 1
+
+//@ func NewEnvironment
+//@   ensures fresh(result) && result != nil && fresh(result.store) && result.store != nil && len(result.store) == 0 && fresh(result.Aliases) && result.Aliases != nil
